@@ -817,6 +817,12 @@ func (x *microCtx) afterRestart() {
 			continue // a FIN overlapping the shutdown may go either way
 		}
 		if len(got) == 0 {
+			if body == "m1" && (hasOpIn(x.spec.Ops, "req1") || hasOpIn(x.spec.Ops, "req1d")) {
+				// REQ pops the message from the in-flight table and re-queues / defers it in a
+				// second step; a flush in between sees it nowhere
+				x.bad("C05 message being requeued lost by a graceful shutdown", "%s (attempts before the shutdown: %d) was being requeued (REQ) while Exit was flushing the channel and was not delivered after the restart; delivered: %v", body, before[body], x.afterRst)
+				continue
+			}
 			if unseen > 0 {
 				unseen--
 				x.bad("C05 message in the hands of a delivery pump lost by a graceful shutdown", "%s (attempts before the shutdown: %d) was not delivered after the restart, and a consumer's pump had taken a message off the queue while Exit was flushing the channel; delivered: %v", body, before[body], x.afterRst)
@@ -829,4 +835,13 @@ func (x *microCtx) afterRestart() {
 			x.bad("C05 attempts count did not continue across the restart", "%s: attempts %d before the shutdown, %d on the first delivery after the restart", body, before[body], got[0])
 		}
 	}
+}
+
+func hasOpIn(ops []string, op string) bool {
+	for _, o := range ops {
+		if o == op {
+			return true
+		}
+	}
+	return false
 }
